@@ -187,12 +187,16 @@ def run_case(c, rng):
                     live_dicts.add(con.container)
                 getattr(m, con.container)[con.name] = con.obj
         except ValueError as e:
-            if 'Divide by 0' not in str(e):
-                raise
-            # the symbolic derivative divides by a sub-expression that folds to the constant 0:
-            # the expression is singular everywhere, i.e. not a valid expression
-            state['abandon'] = 'invalid_expression_divides_by_constant_zero'
-            return False
+            if 'Divide by 0' in str(e):
+                # the symbolic derivative divides by a sub-expression that folds to the constant 0:
+                # the expression is singular everywhere, i.e. not a valid expression
+                state['abandon'] = 'invalid_expression_divides_by_constant_zero'
+                return False
+            if 'math domain' in str(e):
+                # c ** e with a constant base c <= 0 and a non-constant exponent: d/de = c**e * log(c) does not exist
+                state['abandon'] = 'invalid_expression_log_of_nonpositive_constant'
+                return False
+            raise
         except Exception as e:
             import traceback
             fail('register_failed', 'registering valid constraint %s raised %s: %s' % (con.describe()[:300], type(e).__name__, e),
@@ -345,14 +349,20 @@ def run_case(c, rng):
         """set_structure + compare everything observable with the reference."""
         if not live:
             return
-        try:
-            m.set_structure()
-        except Exception as e:
-            fail('set_structure_failed', 'set_structure raised %s: %s' % (type(e).__name__, e))
-            return
-        state['stale'] = False
-        c.count('structure_checks')
-        hist_shape.append('S')
+        if state['stale'] or not state.get('structured') or rng.random() < 0.35:
+            try:
+                m.set_structure()
+            except Exception as e:
+                fail('set_structure_failed', 'set_structure raised %s: %s' % (type(e).__name__, e))
+                return
+            state['stale'] = False
+            state['structured'] = True
+            c.count('structure_checks')
+            hist_shape.append('S')
+        else:
+            # values changed through .value / load since the last set_structure: the evaluator must follow without a new structure
+            c.count('checks_without_new_structure')
+            hist_shape.append('s')
         cons = list(m.cons())
         want = [v.obj for v in live.values()]
         if len(cons) != len(want) or set(map(id, cons)) != set(map(id, want)):
@@ -373,7 +383,11 @@ def run_case(c, rng):
             fail('var_index_wrong', 'Var.index values %s are not a permutation of 0..%d' % (vidx, nreg - 1))
             return
         try:
-            r = np.array(m.evaluate_residuals())
+            jac_first = rng.random() < 0.5      # neither call may depend on the other having run first
+            if not jac_first:
+                r = np.array(m.evaluate_residuals())
+            else:
+                c.count('jacobian_before_residuals')
             if nreg == ncon:
                 J = m.evaluate_jacobian()
                 c.count('square_jacobians')
@@ -381,6 +395,8 @@ def run_case(c, rng):
                 ev = m._evaluator
                 vals, cols, rows = ev.evaluate_csr_jacobian(ev.nnz, ev.nnz, ncon + 1)
                 J = sp.csr_matrix((vals, cols, rows), shape=(ncon, max(nreg, 1)))
+            if jac_first:
+                r = np.array(m.evaluate_residuals())
             xs = np.array(m.get_x())
         except Exception as e:
             import traceback
@@ -476,6 +492,9 @@ def run_case(c, rng):
     nsteps = rng.randint(6, 16) if not tier_deep else rng.randint(8, 30)
     for _ in range(rng.randint(2, max(2, nvars))):
         op_add()
+    if state.get('abandon'):
+        c.inconclusive(state['abandon'])
+        return
     check()
     for _ in range(nsteps):
         if len(c.violations) >= 3 or state.get('abandon'):
@@ -495,6 +514,8 @@ def run_case(c, rng):
                 check()
         else:
             check()
+        if state.get('abandon'):
+            break          # an invalid expression left the model half-registered: nothing after it is a verdict
         if state['stale'] and rng.random() < 0.6:
             check()
     if state.get('abandon'):
